@@ -158,6 +158,9 @@ def corpus(rng):
     C.append(Case(nbw=1, jobsize=512 * 1024, kind=0, isize=8 * 524288 + 100, prog="C4194404:1,E4194304", tag="ring-full-const"))
     C.append(Case(nbw=1, jobsize=512 * 1024, kind=1, isize=7 * 524288, prog="C3670016:3000,E4194304", tag="ring-full-text"))
     C.append(Case(nbw=2, jobsize=512 * 1024, kind=0, isize=12 * 524288, cksum=1, prog="C6291456:1,E100", tag="ring-full-2w"))
+    # a one-byte job first: the round buffer position is 1 mod the section size, the wrap test sees spaceLeft == target - 1
+    C.append(Case(nbw=1, jobsize=512 * 1024, ovlog=1, kind=1, isize=5 * 524288, prog="f1:4194304,c2621439:4194304,E4194304", tag="wrap-offset-1"))
+    C.append(Case(nbw=2, jobsize=512 * 1024, ovlog=5, kind=1, isize=7 * 524288, prog="f1:4194304,C3670015:4194304,E4194304", tag="wrap-offset-1-ov"))
     # three and four pool threads with several jobs in the serial section at once (overtaking needs a job to wait for more than one turn)
     C.append(Case(nbw=3, jobsize=512 * 1024, kind=1, isize=6 * 524288, cksum=1, prog="E4194304", tag="serial-3w"))
     C.append(Case(nbw=4, jobsize=512 * 1024, kind=3, isize=8 * 524288 + 77, cksum=1, prog="c4194381:4194304,E4194304", tag="serial-4w"))
@@ -777,9 +780,11 @@ def r_check(ctx, runner, rng):
 # --------------------------------------------------------------------------
 
 def run(ctx):
-    ctx.cov["rule"] = ("a case = (nbWorkers 1..4, jobSize 512K..2M, overlapLog, rsyncable, LDM, checksum, dict/prefix, input kind and size spanning 1-6 jobs, "
-                       "a program of ZSTD_compressStream2 calls with assorted input/output windows, level changes, resets (abort), worker-side allocation "
-                       "faults, a schedule family: seeded random / PCT priorities / caller-first / overtake / starve-one / workers-first / no-preemption); "
+    ctx.cov["rule"] = ("a case = (nbWorkers 1..4, jobSize 512K..2M, overlapLog, rsyncable, LDM, checksum, dict/prefix, input kind and size spanning 1-16 jobs, "
+                       "a program of ZSTD_compressStream2 calls with assorted input/output windows, level changes, resets (abort), nbWorkers changes, "
+                       "worker-side allocation faults, progress queries, a schedule family: seeded random / PCT priorities / caller-first / overtake / "
+                       "starve-one / starve-job-k / workers-first / no-preemption); boundary corpus (ring full, round-buffer wrap incl. offset 1, LDM window "
+                       "wrapped into, 3-4 threads in the serial section, empty jobs, aborts) x 10 families first, then seeded random cases; "
                        "the real code runs under the deterministic scheduler, its log is replayed through the extracted Coq model and compared after every "
                        "critical section; evaluations = runs; non-trivial = at least 20 critical sections compared; distinct = distinct (set of thread "
                        "positions + jobReady values reached, END/STUCK) signatures")
